@@ -84,6 +84,36 @@ Definition extra_cmd (ps : pstate_) (toks : list str) : option (pstate_ * str) :
                     | _, _ => None end
       | _ => None
       end
+    else if tok_is c "set2" then Some (exec idna ops ps (lit "set" :: args))       (* the set_<name> spellings *)
+    else if tok_is c "nxmove" then
+      match args with
+      | [ts] => match slot_of ts with Some s => Some (ps, lit "nxmove " ++ st_str ops ps s) | None => Some (ps, err) end
+      | _ => Some (ps, err)
+      end
+    else if tok_is c "vecgrow" then
+      (* the object is moved into a std::vector that reallocates, then moved back: nothing observable changes *)
+      match args with
+      | [ts; _] => match slot_of ts with
+                   | Some s => Some (ps, lit "vecgrow " ++ st_str ops ps s ++ lit " nothrow_move=1")
+                   | None => Some (ps, err) end
+      | _ => Some (ps, err)
+      end
+    else if tok_is c "usp_selfparse" then
+      match args with
+      | [tk; ti; tw] =>
+          match slot_of tk with
+          | Some k =>
+              let l := get_usp ps k in
+              match nth_error l (N.to_nat (dec_of ti)) with
+              | None => Some (ps, lit "usp skipped")
+              | Some (nm, vl) =>
+                  let l' := urlencoded_parse (strip_qmark (utf8_encode (if tok_is tw "n" then nm else vl))) in
+                  Some (set_usp ps k l', lit "usp" ++ sp_ (usp_state_str l'))
+              end
+          | None => Some (ps, err)
+          end
+      | _ => Some (ps, err)
+      end
     else if tok_is c "fmt" then
       (* stream insertion of a getter's view with a field width: "[" setw(w) adjust fill hostname "][" setw(3) 7 "]"
          - formatted output pads to the width, and the width applies to one item only *)
